@@ -1,0 +1,92 @@
+// Verification hooks, compiled only with `--cfg facebook_akd_verif`.
+//
+// Thin public wrappers around crate-private *pure* functions. They add no behaviour: each one
+// forwards to the real function so that an external harness crate can drive it.
+
+use crate::append_only_zks::AzksElementSet;
+use crate::storage::types::{DbRecord, ValueState, ValueStateRetrievalFlag};
+use crate::tree_node::{TreeNode, TreeNodeWithPreviousValue};
+use crate::{AzksElement, Configuration, NodeLabel};
+
+/// Which representation `AzksElementSet::from` chose, plus the elements in stored order.
+pub fn element_set_from(nodes: Vec<AzksElement>) -> (bool, Vec<AzksElement>) {
+    match AzksElementSet::from(nodes) {
+        AzksElementSet::BinarySearchable(v) => (true, v),
+        AzksElementSet::Unsorted(v) => (false, v),
+    }
+}
+
+fn build(sorted: bool, nodes: Vec<AzksElement>) -> AzksElementSet {
+    if sorted {
+        AzksElementSet::BinarySearchable(nodes)
+    } else {
+        AzksElementSet::Unsorted(nodes)
+    }
+}
+
+/// `AzksElementSet::partition` on a set of the given representation.
+pub fn element_set_partition(
+    sorted: bool,
+    nodes: Vec<AzksElement>,
+    prefix_label: NodeLabel,
+) -> (Vec<AzksElement>, Vec<AzksElement>) {
+    let (l, r) = build(sorted, nodes).partition(prefix_label);
+    (l.to_vec(), r.to_vec())
+}
+
+/// `AzksElementSet::get_longest_common_prefix`.
+pub fn element_set_lcp<TC: Configuration>(sorted: bool, nodes: Vec<AzksElement>) -> NodeLabel {
+    build(sorted, nodes).get_longest_common_prefix::<TC>()
+}
+
+/// `AzksElementSet::contains_prefix`.
+pub fn element_set_contains_prefix(
+    sorted: bool,
+    nodes: Vec<AzksElement>,
+    prefix_label: &NodeLabel,
+) -> bool {
+    build(sorted, nodes).contains_prefix(prefix_label)
+}
+
+/// `TreeNodeWithPreviousValue::determine_node_to_get`; `None` stands for the NotFound error.
+pub fn determine_node_to_get(
+    record: &TreeNodeWithPreviousValue,
+    target_epoch: u64,
+) -> Result<Option<TreeNode>, ()> {
+    match record.determine_node_to_get(target_epoch) {
+        Ok(n) => Ok(Some(n)),
+        Err(crate::errors::StorageError::NotFound(_)) => Ok(None),
+        Err(_) => Err(()),
+    }
+}
+
+/// `DbRecord::transaction_priority`.
+pub fn transaction_priority(record: &DbRecord) -> u8 {
+    record.transaction_priority()
+}
+
+/// `Transaction::find_appropriate_item`.
+pub fn find_appropriate_item(
+    intermediate: Vec<ValueState>,
+    flag: ValueStateRetrievalFlag,
+) -> Option<ValueState> {
+    crate::storage::transaction::Transaction::verif_find_appropriate_item(intermediate, flag)
+}
+
+/// `StorageManager::compare_db_and_transaction_records`.
+pub fn compare_db_and_transaction_records(
+    state_epoch: u64,
+    transaction_value: ValueState,
+    flag: ValueStateRetrievalFlag,
+) -> Option<ValueState> {
+    crate::storage::manager::StorageManager::<crate::storage::memory::AsyncInMemoryDatabase>::verif_compare_db_and_transaction_records(
+        state_epoch,
+        transaction_value,
+        flag,
+    )
+}
+
+/// `directory::get_marker_version` (the server side of the lookup marker).
+pub fn directory_get_marker_version(version: u64) -> u64 {
+    crate::directory::get_marker_version(version)
+}
